@@ -36,6 +36,13 @@ def _semantic_symmetry(repo, dl_a, dl_b):
     """True: same leaf for every abstract input; False: a counterexample exists; None: cannot decide."""
     import itertools
     from .fam_d2 import Table, canon_expr, Unknown, _numeric_features
+    # paths that are literally the same on both sides (same conditions, same leaf) at the head of the lists select the same leaf for the same inputs
+    # whatever their conditions mean (e.g. the loop over user rules): only the remainder has to be compared
+    k0 = 0
+    while k0 < min(len(dl_a), len(dl_b)) and dl_a[k0] == dl_b[k0]:
+        k0 += 1
+    if 0 < k0 < max(len(dl_a), len(dl_b)):
+        dl_a, dl_b = dl_a[k0:], dl_b[k0:]
     try:
         ta, tb = Table(repo, dl_a), Table(repo, dl_b)
         feats = {}
@@ -59,6 +66,8 @@ def _semantic_symmetry(repo, dl_a, dl_b):
                 classes.setdefault(sig, v)
             vals = sorted(set(classes.values()) | numeric.get(f, set()), key=repr)
             vals.append(12345.678 if any(isinstance(v, (int, float)) and not isinstance(v, bool) for v in vals) else "?other?")
+            if isinstance(f, tuple) and f and f[0] == "param" and vals[-1] == "?other?":
+                vals.append("?other2?")      # two parameters may be compared with each other: two distinct values outside every literal set
             doms[f] = vals
         order = sorted(doms, key=lambda f: len(repr(f)))
         size = 1
@@ -218,6 +227,11 @@ def _typekey_min_idiom(repo, clause):
             elif isinstance(v, ast.Call) and call_name(v) in ("list", "tuple") and v.args and isinstance(v.args[0], ast.Call) \
                     and call_name(v.args[0]) == "reversed":
                 R, how = name, "reversed(%s)" % T
+    verdict_sem = _typekey_by_orderings(fn, T)
+    if R is None and verdict_sem is not None:
+        ok_, detail_ = verdict_sem
+        obs.append(Ob("D1", clause, fn, fn.node, ok_, detail_, construct="def typekey", slot="symmetric:typekey", positive=not ok_))
+        return obs
     if R is None:
         no_reversal = not any((isinstance(x, ast.Call) and call_name(x) in ("reverse", "reversed", "flip", "min", "max", "sorted")) or
                               (isinstance(x, ast.Slice) and x.step is not None) for x in ast.walk(fn.node))
@@ -262,8 +276,106 @@ def _typekey_min_idiom(repo, clause):
     only_t = (not ifs) and (not mins) and bool(rets) and all(is_seq(r_.value, T) for r_ in rets)
     if only_t:
         detail = "typekey returns the sequence itself on every path: a sequence and its reversal get different keys"
+    if not ok and not (only_t or partial_cmp) and verdict_sem is not None:
+        ok, detail = verdict_sem
+        obs.append(Ob("D1", clause, fn, ifs[0] if ifs else fn.node, ok, detail, slot="symmetric:typekey", positive=not ok))
+        return obs
     obs.append(Ob("D1", clause, fn, ifs[0] if ifs else fn.node, ok, detail, slot="symmetric:typekey", positive=only_t or partial_cmp))
     return obs
+
+
+def _typekey_by_orderings(fn, T):
+    """typekey touches the elements of its argument only through (lexicographic) comparisons, copies, reversal and slicing: its behaviour on every input is
+    determined by the order type of the sequence.  When the function is a pure expression of its argument (no in-place mutation), its decision list is
+    evaluated on every sequence of length 1..4 over a three-letter ordered alphabet (120 order types incl. ties): the key of a sequence and of its reversal
+    must be equal and must be one of the two.  -> (ok, detail) or None when the function is outside this language."""
+    import itertools
+    from verif_sa.pe import P, Normalizer, decision_list
+    for n in ast.walk(fn.node):
+        if isinstance(n, ast.Call) and isinstance(n.func, ast.Attribute) and n.func.attr in ("reverse", "sort", "append", "extend", "insert", "pop", "remove"):
+            return None
+        if isinstance(n, (ast.For, ast.While, ast.AugAssign)):
+            return None
+    try:
+        dl = decision_list(fn.node, {T: P(T)}, Normalizer({}))
+    except Exception:
+        return None
+
+    class U(Exception):
+        pass
+
+    def ev(t, x):
+        if not isinstance(t, tuple):
+            raise U(repr(t))
+        op = t[0]
+        if op == "param":
+            if t[1] == T:
+                return x
+            raise U("param")
+        if op == "const":
+            return t[1]
+        if op in ("list", "tuple") and (len(t) == 1 or isinstance(t[1], tuple)):
+            return tuple(ev(y, x) for y in t[1:])
+        if op == "call" and t[1] in ("tuple", "list", "reversed", "sorted", "len", "min", "max") and t[3] == ("kws",):
+            args = [ev(y, x) for y in t[2][1:]]
+            if t[1] in ("tuple", "list") and len(args) == 1:
+                return tuple(args[0])
+            if t[1] == "reversed" and len(args) == 1:
+                return tuple(reversed(args[0]))
+            if t[1] == "sorted" and len(args) == 1:
+                return tuple(sorted(args[0]))
+            if t[1] == "len" and len(args) == 1:
+                return len(args[0])
+            if t[1] in ("min", "max") and len(args) == 2:
+                return min(args) if t[1] == "min" else max(args)
+            raise U("call")
+        if op == "sub[]":
+            base = ev(t[1], x)
+            sl = t[2]
+            if isinstance(sl, tuple) and sl[0] == "slice":
+                parts = [None if y is None else ev(y, x) for y in sl[1:4]]
+                return base[slice(*parts)]
+            return base[ev(sl, x)]
+        if op in ("le", "lt", "ge", "gt", "eq", "ne"):
+            a, b = ev(t[1], x), ev(t[2], x)
+            return {"le": a <= b, "lt": a < b, "ge": a >= b, "gt": a > b, "eq": a == b, "ne": a != b}[op]
+        if op == "not":
+            return not ev(t[1], x)
+        if op == "and":
+            return all(ev(y, x) for y in t[1:])
+        if op == "or":
+            return any(ev(y, x) for y in t[1:])
+        if op in ("ifexp", "phi"):
+            return ev(t[2], x) if ev(t[1], x) else ev(t[3], x)
+        if op == "add":
+            a, b = ev(t[1], x), ev(t[2], x)
+            if isinstance(a, tuple) and isinstance(b, tuple):
+                return a + b
+            raise U("add")
+        raise U(op)
+
+    def key(x):
+        for conds, leaf in dl:
+            if all(ev(c, x) for c in conds):
+                if leaf[0] != "ret":
+                    raise U("raise path")
+                return ev(leaf[1], x)
+        raise U("no path")
+    try:
+        n = 0
+        for ln in range(1, 5):
+            for x in itertools.product((0, 1, 2), repeat=ln):
+                n += 1
+                k1, k2 = key(x), key(tuple(reversed(x)))
+                if k1 != k2:
+                    return False, "typekey gives DIFFERENT keys for the sequence %s and its reversal: %s vs %s (evaluated on all 120 order types of length 1..4)" % (list(x), k1, k2)
+                if tuple(k1) not in (x, tuple(reversed(x))) or not isinstance(k1, tuple):
+                    return False, "typekey of %s is %r: neither the sequence nor its reversal as a tuple" % (list(x), k1)
+        return True, "typekey evaluated on all %d order types of sequences of length 1..4 (elements are only compared, copied and reordered): a sequence and its reversal always get the same key, which is one of the two" % n
+    except U:
+        return None
+    except Exception:
+        return None
 
 
 # ---- D2: type count = table length ----------------------------------------------------------------
